@@ -164,6 +164,18 @@ pub fn gen(cfg: &Cfg) -> Vec<String> {
     for s in ["", " ", "a b", "a\n", "Artist ", " Artist", "Art1st", "é", "aé", "a-b", "a_b", "-", "_", "A", "z", "@", "[", "`", "{", "Albu", "Albumm", "album\0"] {
         ops.push(format!("tag.try {}", hex(s.as_bytes())));
     }
+    // Unicode case-folding confusables: code points whose lower- or upper-casing is an ASCII letter
+    // (KELVIN SIGN -> k, LONG S -> S, DOTTED / DOTLESS I) in the place of that letter in a known name
+    for n in &names {
+        for (from, to) in [("k", "\u{212A}"), ("K", "\u{212A}"), ("s", "\u{17F}"), ("S", "\u{17F}"), ("i", "\u{131}"), ("I", "\u{130}"), ("a", "\u{FF41}"), ("A", "\u{FF21}")] {
+            if let Some(p) = n.find(from) {
+                let mut v = n.clone();
+                v.replace_range(p..p + from.len(), to);
+                ops.push(format!("tag.try {}", hex(v.as_bytes())));
+                ops.push(format!("tag.try {}", hex(v.to_lowercase().as_bytes())));
+            }
+        }
+    }
     // complete single-edit neighbourhood of every known name (a typo in a table entry shows up here)
     for n in &names {
         for v in single_edits(n) {
